@@ -150,6 +150,15 @@ def run_case(c):
             ps[Conv1dDW] = probe(which, 'dw')
             ps[LinearGeneric] = probe(which, 'lin')
             specs['probe_' + which] = ps
+        # a probe that is non-zero at every precision (also 0 bit): in + 1000 * out features of the layer it is shown
+        pm_ = CostSpec(shared=False, default_behavior='zero')
+
+        def mix(kind):
+            ik, ok_ = ('in_features', 'out_features') if kind == 'lin' else ('in_channels', 'out_channels')
+            return lambda spec: torch.as_tensor(spec[ik], dtype=torch.float32) * 1.0 + 1000.0 * torch.as_tensor(spec[ok_], dtype=torch.float32)
+        for pat_, kd_ in ((Conv2dGeneric, 'conv'), (Conv2dDW, 'dw'), (Conv1dGeneric, 'conv'), (Conv1dDW, 'dw'), (LinearGeneric, 'lin')):
+            pm_[pat_] = mix(kd_)
+        specs['probe_mix'] = pm_
         if c['ne16']:
             from plinio.cost.ne16_latency import ne16_latency
             specs['ne16'] = ne16_latency
@@ -417,6 +426,17 @@ def oracle(c, o):
             if sh[ok_] != eout:
                 out.append(('spec-keys:%s-not-shown-effective-%s' % ({'lin': 'linear', 'conv': 'conv', 'dw': 'dw'}[kd], ok_),
                             'layer node %d (%s): cost function shown %s=%r, effective output features %r (all keys shown: %r)' % (node, kd, ok_, sh[ok_], eout, sh)))
+    # the probing specs do not depend on the precisions (non-zero at 0 bit too): read back through the cost interface they must
+    # return the feature counts of the summary() assignment, summed over the call sites, pruned channels or not
+    if not any(k.startswith('spec-keys:') for k, _ in out):
+        sites_ = [site for site, _ in o['sites']]
+        ref = {'probe_in': sum(feats[s_][0] for s_ in sites_), 'probe_out': sum(feats[s_][1] for s_ in sites_)}
+        ref['probe_mix'] = ref['probe_in'] + 1000 * ref['probe_out']
+        for k, rv in ref.items():
+            if isinstance(costs.get(k), float) and not near(costs[k], rv):
+                out.append(('probe-cost-differs-from-features-of-summary-assignment:' + k,
+                            '%s (independent of the precisions): get_cost = %r, feature counts of the summary() assignment summed over the layers = %r%s'
+                            % (k, costs[k], rv, ' (some layers have pruned 0-bit channels)' if c['mode'] == 'chan0' else '')))
     ds = c.get('dwsel')
     if ds and ds['variant'] == 'prod-prunes' and 'costs2' in o:
         # only the depthwise layer's bits changed (a -> b, all its channels kept): every other layer's cost
@@ -550,6 +570,7 @@ def run(ctx):
                 if t == 'net':
                     for t2, (a, b) in zip(('pb', 'ob', 'probe_in', 'probe_out'), v):
                         sums[(k, t2)] = Fraction(a, b)
+                    sums[(k, 'probe_mix')] = sums[(k, 'probe_in')] + 1000 * sums[(k, 'probe_out')]
                 else:
                     sums[(k, t)] = sums.get((k, t), Fraction(0)) + Fraction(v[0], v[1])
             for (k, t), mv in sorted(sums.items()):
